@@ -17,6 +17,7 @@ import OcVerif.Driver.Pool
 import OcVerif.Driver.Join
 import OcVerif.Driver.Rt
 import OcVerif.Driver.Once
+import OcVerif.Driver.Sleepers
 /-!
 `ocmodel`: reads history lines `<comp> <id> : <body> => <implementation outputs>` on stdin,
 runs the Lean model on `<body>`, compares with the implementation's outputs and evaluates the
@@ -47,6 +48,7 @@ def dispatch (comp : String) : Option (String → String → Verdict) :=
   | "join" => some Driver.Join.drive
   | "rt" => some Driver.Rt.drive
   | "once" => some Driver.Once.drive
+  | "sleepers" => some Driver.Sleepers.drive
   | _ => none
 
 def handle (line : String) : String :=
